@@ -1,8 +1,14 @@
 """C19 (partial) — stop() interrupts any solver promptly, leaving valid results.
-proof: Properties_C19.v (generated status chain, loop skeleton, ALM propagation, exit block);
+proof: Properties_C19.v — generated status chain, loop skeleton, ALM propagation, exit block; PROMPTNESS of a sticky request on the
+whole-loop models (StopPrompt*.v): PANOC, ZeroFPR (line-search pass bound, stop at the next while-test, exit at the next stop check,
+consecutive polls, request-to-return, no direction call after the poll that sees the request), PANTR, FISTA (one poll per iteration: the
+iteration in progress completes), PANOC-OCP; validity of Interrupted outputs (C03 relations); ALM over all four inner solvers (every
+inner solve started after the request is start-up + one stop check; Interrupted is propagated at once).
 exploration (exhaustive fault enumeration on fixed problems): stop() is called from inside problem-function evaluation #j for every j,
-from every progress callback, and from every call of a scripted direction provider; status, tail length, outputs (C03 relations) and
-ALM propagation are checked.  Not covered: real threads / data-race freedom of the atomic flag."""
+from every progress callback, and from every call of a scripted direction provider; status, tail length (PROVED bounds where a model
+theorem exists, converted to user-function calls), callbacks / direction calls after the request, outputs (C03 relations) and ALM
+propagation are checked.  Not covered: real threads / data-race freedom of the atomic flag.
+FINDING recorded in coverage['alm_probe']: under ALM the number of inner solves started after a visible request is not bounded by one."""
 import math
 from vf.core import *
 from vf import solvelib as sl
